@@ -129,7 +129,13 @@ where
             WaitingProjected::NoPool => Poll::Ready(WaitingPoll::Closed),
         };
 
-        if polled.is_ready() {
+        // Only a waiter which has resolved is discarded. `NotReady` means
+        // the receiver is still live and a connection returned to the pool
+        // while we are connecting can still be delivered on it.
+        if matches!(
+            polled,
+            Poll::Ready(WaitingPoll::Connected(_) | WaitingPoll::Closed)
+        ) {
             self.as_mut().set(Waiting::NoPool);
         };
 
